@@ -13,7 +13,7 @@ fn find(h: &[u8], n: &[u8]) -> bool { !n.is_empty() && h.windows(n.len()).any(|w
 impl Prop for C16 {
     fn id(&self) -> &'static str { "C16" }
     fn rule(&self) -> String {
-        "real binary: key generate, then k password changes (k = 1..4 quick, up to 8 thorough) over passwords {empty, ASCII, UTF-8, 100 bytes}, interleaved with extract-pub and with an encrypt/decrypt round trip using the current string; \
+        "real binary: key generate, then k password changes (k = 1..4 quick, up to 8 thorough) over passwords {empty, ASCII, UTF-8, 100 bytes, two long passphrases sharing an 87-byte prefix, trailing space}, including changes to the SAME password, interleaved with extract-pub and with an encrypt/decrypt round trip using the current string; \
          every printed PrivateKey string is unlocked by the Lean model with the newest password to one and the same private key; every earlier password (unless equal as an HMAC key) and unrelated passwords are refused by the binary and by the model; salts pairwise distinct; \
          extract-pub always prints the PublicKey line written at generation, equal to encode(pub(sk)) computed by the model; no output (stdout, stderr, keyring) contains the private key in raw, hex or base64 form. non-trivial = distinct history".into()
     }
@@ -28,7 +28,9 @@ impl Prop for C16 {
         let k = getn(c, "k");
         let pool: Vec<String> = vec!["".into(), "hunter2".into(), "pässwörd–🔑".into(), "x".repeat(100), "a".into()];
         let mut pws: Vec<String> = vec![pool[rng.below(pool.len())].clone()];
-        for _ in 0..k { let mut p = pool[rng.below(pool.len())].clone(); if rng.chance(1, 4) { p = pws.last().unwrap().clone(); } pws.push(p); }
+        let long_a = format!("{} — first", "correct horse battery staple ".repeat(3)); let long_b = format!("{} — second", "correct horse battery staple ".repeat(3));   // share an 87-byte prefix
+        let pool: Vec<String> = { let mut p = pool; p.push(long_a.clone()); p.push(long_b.clone()); p.push("trailing space ".into()); p };
+        for i in 0..k { let mut p = pool[rng.below(pool.len())].clone(); if rng.chance(1, 4) || (i == 0 && k >= 2) { p = pws.last().unwrap().clone(); } if i == 1 && k >= 3 { p = long_a.clone(); } if i == 2 && k >= 3 { p = long_b.clone(); } pws.push(p); }
         o.nontrivial = Some(format!("{}/{}", k, get(c, "seed"))); o.tags.push(format!("changes={}", k));
         // generate
         let g = run_kestrel(&World { files: vec![], env: vec![("KESTREL_PASSWORD".into(), pws[0].clone())], stdin: b"subject\n".to_vec() }, &sv(&["key", "generate", "-o", "ring.txt", "--env-pass"]));
